@@ -435,7 +435,8 @@ func (root *mnode) lookupGreedy(url string) (mfound, bool) {
 	params := map[string]string{}
 	trim := func(s string) string { return strings.Trim(s, "./") }
 	for _, p := range splitParts(url) {
-		if cur.wild != nil {
+		// (a wildcard declared in the path does not take a further host label, see hostBehindPathWild)
+		if cur.wild != nil && !hostBehindPathWild(cur, p) {
 			found, foundPath = cur.wild, wildPath(path, cur.wild)
 			if p.v == "*" {
 				return mfound{found, trim(foundPath), params}, true
@@ -509,11 +510,15 @@ func (n *mnode) lookupBT(parts []part, i int, path string, params map[string]str
 	if isP {
 		return mfound{}, false
 	}
-	if n.wild != nil {
+	if n.wild != nil && !hostBehindPathWild(n, p) {
 		return mfound{n.wild, trim(wildPath(path, n.wild)), params}, true
 	}
 	return mfound{}, false
 }
+
+// hostBehindPathWild: p is a further host label of the request while n is a host node whose wildcard child was
+// declared in the path (h.com/* looked up with h.com.other): no match (repaired in /repo, see known_findings.json).
+func hostBehindPathWild(n *mnode, p part) bool { return p.host && n.host && !n.wild.host }
 
 func (root *mnode) lookup(url string, greedy bool) (mfound, bool) {
 	if greedy {
@@ -1031,6 +1036,12 @@ func genRequest(ds []decl) *rapid.Generator[request] {
 			path = nil
 		case 4: // other host
 			host = strings.Split(rapid.SampledFrom([]string{"h.com", "api.h.com", "x.org"}).Draw(t, "otherhost"), ".")
+		case 5: // another host whose name extends the declared one by a label (the first path segment moved into the host)
+			if len(path) > 0 && !strings.ContainsAny(path[0], "{}*") {
+				host, path = append(host, path[0]), path[1:]
+			} else {
+				host = append(host, "zz")
+			}
 		}
 		q := request{Method: rapid.SampledFrom(reqMethods).Draw(t, "method"), URL: strings.Join(append([]string{strings.Join(host, ".")}, path...), "/")}
 		if rapid.IntRange(0, 7).Draw(t, "trail") == 0 {
